@@ -24,7 +24,8 @@ EXPLANATION = (
     'their own operator with self first, division guards the value it divides by; (C01.5) the '
     'complete decision table of the infix->prefix/noop switch for - and + over every token kind; '
     '(C01.6) percent reaches the parser as a postfix operator, percent factors agree; (C01.7) '
-    'the scientific-notation guard accepts Excel number mantissas.')
+    'the scientific-notation guard accepts Excel number mantissas.'
+    ' (C01.8) an operator tree computes from the operand values of the current evaluation: nothing evaluation-dependent is stored on operator/operand nodes (effect analysis of the eval-path methods) and the trees (X+1)*2, -X, 2^-X, X*Y, X-Y-1 evaluated twice on the same nodes with changed cell values call every operator function with the values of that evaluation, evaluating every operand; (C01.6) also: a percent sign after a number literal yields ONE operand (value/100) or operand + postfix operator.')
 NOT_DECIDED = ('that the tokenizer emits the right token stream for every rendering (blanks, '
                'redundant parentheses), and the numeric values computed')
 TRUSTED = ['Excel operator classes transcribed from the property statement (rules/common.py)']
